@@ -290,6 +290,8 @@ class Taint:
                 fobj = v[1]
                 return self.call_func(fobj, args, kw, closure_env=v[2])
             tgt = self.prog.funcs.get(f.id)
+            if tgt is not None and self.cur and self.prog.shadowed(self.cur[-1], f.id):
+                tgt = None  # a callback parameter
             if tgt is not None and tgt.cls is None:
                 return self.call_func(tgt, args, kw)
             return T(allk & {TEXT})
